@@ -17,7 +17,7 @@ RULE = (
     "question first. Oracle (differential + invariant): the outcome of every operation (value repr or exception "
     "class) equals the outcome of the same operation asked first on a database freshly rebuilt from the accepted "
     "registrations; the full registry snapshot (all public getters, both conversion functions sampled) is identical "
-    "before and after every read-only or failing step. Plus an exhaustive sweep of the shipped table: every category x (first and last listed unit, first and last unit of its type that is not listed) through the object-level uses (GetValidUnits of Scalar / Array / FixedArray / FractionScalar - the returned list is then edited by the caller -, IsValid, CreateCopy, ObtainQuantity, CheckCategoryUnit, +), after each of which the valid and default units of every category of that quantity type and the type's units read as before. Registrations include a unit whose symbol differs only by case from one that was looked up with FindUnitCase. Conversions of an ndarray-backed Array are questions too: asked twice they give the same answer and the ndarray holds the same numbers afterwards. Quantities are asked for with and without a caption; a category is registered for the first time after lookups in it failed. Non-trivial = a query preceded by a failing lookup of the same "
+    "before and after every read-only or failing step. Plus an exhaustive sweep of the shipped table: every category x (first and last listed unit, first and last unit of its type that is not listed) through the object-level uses (GetValidUnits of Scalar / Array / FixedArray / FractionScalar - the returned list is then edited by the caller -, IsValid, CreateCopy, ObtainQuantity, CheckCategoryUnit, +), after each of which the valid and default units of every category of that quantity type and the type's units read as before. Registrations include a unit whose symbol differs only by case from one that was looked up with FindUnitCase. Conversions of an ndarray-backed Array are questions too: asked twice they give the same answer and the ndarray holds the same numbers afterwards. Quantities are asked for with and without a caption; a category is registered for the first time after lookups in it failed. The verdict of the validating constructor of derived quantities is a query as well, asked after the same factors went through each route that does not validate. Non-trivial = a query preceded by a failing lookup of the same "
     "key, by an object-level GetValidUnits, or by a later registration; key = (database kind, query kind, preceding event kind, category/unit asked)."
 )
 ASSUMPTIONS = ["quantities and value objects obtained before a registration keep what they captured (documented design); only fresh queries are compared"]
@@ -156,6 +156,28 @@ def query(db, q):
             a = Scalar.CreateWithQuantity(qa, 1.0)
             b = Scalar(1.0, q[2], q[1]) * Scalar(1.0, q[2], q[1])
             r = (repr(a + b), repr(a - b), repr(list(qa.GetCategoryToUnitAndExps().items())), qa.GetUnit(), repr(a * b))
+        elif k == "CreateDerived":
+            # the validating constructor of derived quantities: its verdict is a lookup like any other
+            from collections import OrderedDict
+
+            from barril.units import Quantity
+
+            o = Quantity.CreateDerived(OrderedDict([(q[1], [q[2], q[5]]), (q[3], [q[4], -1])]))
+            r = (repr(o), o.GetUnit(), o.GetQuantityType())
+        elif k == "DerivedUnchecked":
+            # the same factors through the routes that, by design, do not validate (dict form, MakeCopy, CreateCopyInstance)
+            from collections import OrderedDict
+
+            from barril.units import Quantity
+
+            spec = OrderedDict([(q[1], [q[2], q[5]]), (q[3], [q[4], -1])])
+            if q[6] == 0:
+                o = ObtainQuantity(spec)
+            elif q[6] == 1:
+                o = Quantity.CreateEmpty().MakeCopy(spec)
+            else:
+                o = Quantity.CreateEmpty().CreateCopyInstance(spec)
+            r = (repr(o), o.GetUnit())
         elif k == "IsValid":
             r = (Scalar(q[3], q[2], q[1]).IsValid(), Array([q[3], 1.0], q[2], q[1]).IsValid())
         elif k == "CheckValueForCategory":
@@ -352,6 +374,8 @@ def seq_strategy(base_kind, max_len):
             st.tuples(st.just("ObtainQuantityCaption"), c, u, st.sampled_from(["", "Measured Depth", "cap"])),
             st.tuples(st.sampled_from(["AddPow", "MulPow", "DivPow", "MulRecipPow", "ArrayMulPow"]), c, u, u, st.sampled_from([2, 3, 2])),
             st.tuples(st.just("AddMixed"), c, u, c, u),
+            st.tuples(st.just("CreateDerived"), c, u, c, u, st.sampled_from([1, 2])),
+            st.tuples(st.just("DerivedUnchecked"), c, u, c, u, st.sampled_from([1, 2]), st.sampled_from([0, 1, 2])),
             st.sampled_from([("AddMixed", "L", "m", "depth", "km"), ("AddMixed", "depth", "cm", "L", "m")] if base_kind == "small" else [("AddMixed", "length", "m", "depth", "km"), ("AddMixed", "liquid volume", "m3", "gas volume", "ft3"), ("AddMixed", "depth", "cm", "length", "m")]),
             st.sampled_from([("ArrayGetValues", "L", "m", "km"), ("ArrayGetValues", "depth", "km", "m")] if base_kind == "small" else [("ArrayGetValues", "temperature", "degC", "K"), ("ArrayGetValues", "temperature", "K", "degF"), ("ArrayGetValues", "pressure", "psi", "Pa"), ("ArrayGetValues", "length", "ft", "m")]),
             st.just(("GetQuantityTypes",)),
@@ -499,6 +523,24 @@ def run_sweep(spec, ctx):
                 core.guarded(ctx, lambda k: sweep_case(ctx, db, k["category"], k["unit"], k["role"]), {"kind": "sweep", "category": c, "unit": u, "role": role})
                 n += 1
         ctx.exhaustive["shipped categories x (listed, not listed) units, object-level uses"] = "all %d pairs" % n
+    # the verdict of the validating constructor after the same factors went through a route that does not validate
+    n = 0
+    for base, specs in (
+        ("posc", [("length", "s", "time", "s"), ("length", "m", "time", "s"), ("depth", "degC", "pressure", "m"), ("temperature", "K", "length", "psi"), ("time", "m", "length", "m")]),
+        ("small", [("L", "s", "T", "s"), ("L", "m", "T", "s"), ("depth", "s", "L", "cm"), ("T", "m", "L", "m")]),
+    ):
+        pre = [["reg", copy.deepcopy(r)] for r in ([["base", "L", "metre", "m"], ["unit", "L", "centimetre", "cm", "%f*100.0", "%f/100.0", None], ["base", "T", "second", "s"], ["cat", "L", {"quantity_type": "L"}], ["cat", "T", {"quantity_type": "T"}], ["cat", "depth", {"quantity_type": "L"}]] if base == "small" else [])]
+        for c1, u1, c2, u2 in specs:
+            for e in (1, 2):
+                for route in (0, 1, 2):
+                    ops = pre + [["query", ["DerivedUnchecked", c1, u1, c2, u2, e, route]], ["query", ["CreateDerived", c1, u1, c2, u2, e]], ["query", ["CreateDerived", c1, u1, c2, u2, e]]]
+                    try:
+                        core.guarded(ctx, lambda k: run_case(ctx, k["base"], k["ops"]), {"base": base, "ops": ops})
+                    except core.Viol as v:
+                        ctx.record(v.key, v.case, v.msg)
+                    ctx.cls("validating_constructor_after_an_unvalidated_route")
+                    n += 1
+    ctx.exhaustive["validating constructor after each non-validating route (fixed factor sets)"] = "all %d histories" % n
 
 
 def run_shard(spec, ctx):
